@@ -4,7 +4,7 @@
 //
 //   srv <version 4/5>
 //   ses <kind> <a> <b> <c>     client A's session:
-//       kind 0 v5 CONNECT by IPv4 (a: target 0 reachable / 1 refusing)     1 v5 CONNECT by host name (a: 0 resolvable / 1 unresolvable / 2 resolvable-but-refusing)
+//       kind 0 v5 CONNECT by IPv4 (a: target 0 reachable / 1 refusing)     1 v5 CONNECT by host name (a % 3: 0 resolvable / 1 unresolvable / 2 resolvable-but-refusing; a == 7: a name that resolves to an IPv6 address)
 //            2 v4 CONNECT (a: 0 reachable / 1 refusing)                      3 BIND (v5 or v4 by server version)
 //            4 UDP ASSOCIATE (a: 0 IPv4 headers / 1 host-name headers; b: number of datagrams)
 //            5 raw bytes (see "raw")                                          6 mutated valid negotiation (a: field, b: value)
@@ -37,7 +37,7 @@ struct ByteClient
 struct Target
 {
 	// TCP: records what it receives per connection and echoes it back transformed
-	std::unique_ptr<tcp::acceptor> acc;
+	std::unique_ptr<tcp::acceptor> acc, acc6; std::unique_ptr<tcp::socket> pending6;
 	struct Conn { std::unique_ptr<tcp::socket> s; std::string got; std::vector<unsigned char> rbuf; std::vector<unsigned char> wq; bool writing = false; bool closed = false; tcp::endpoint remote; };
 	std::vector<std::shared_ptr<Conn>> conns;
 	std::unique_ptr<tcp::socket> pending;
@@ -131,6 +131,18 @@ void target_accept(Run& R)
 		target_accept(R);
 	});
 }
+void target_accept6(Run& R)
+{
+	R.tgt.pending6.reset(new tcp::socket(R.w->node(3)));
+	R.tgt.acc6->async_accept(*R.tgt.pending6, [&R](boost::system::error_code const& e) {
+		if (e) return;
+		auto cn = std::make_shared<Target::Conn>(); cn->s = std::move(R.tgt.pending6);
+		boost::system::error_code ec; cn->remote = cn->s->remote_endpoint(ec);
+		R.tgt.conns.push_back(cn);
+		target_conn_read(R, cn);
+		target_accept6(R);
+	});
+}
 void target_udp(Run& R)
 {
 	R.tgt.ubuf.assign(2000, 0);
@@ -154,6 +166,7 @@ void audp_rx(Run& R)
 }
 
 std::string be16(int v) { std::string s; s += char((v >> 8) & 0xff); s += char(v & 0xff); return s; }
+std::string ip6(address const& a) { auto b = a.to_v6().to_bytes(); return std::string(reinterpret_cast<char const*>(b.data()), 16); }
 std::string ip4(address const& a) { auto b = a.to_v4().to_bytes(); return std::string(reinterpret_cast<char const*>(b.data()), 4); }
 std::string payload_of(std::uint64_t key, long long n) { std::string s; s.resize(std::size_t(n)); for (long long i = 0; i < n; ++i) s[std::size_t(i)] = char(payload_byte(key, std::uint64_t(i))); return s; }
 std::string transformed(std::string s) { for (auto& ch : s) ch = char(xf(static_cast<unsigned char>(ch))); return s; }
@@ -169,6 +182,7 @@ Verdict run_case(Case const& c, Ctx& ctx)
 	if (version == 5 && kind == 2) kind = 0;
 
 	Topology topo; for (int i = 0; i < 5; ++i) topo.nodes.push_back(NodeSpec());
+	topo.nodes[2].fam = 2; topo.nodes[3].fam = 2; // proxy and target are dual-stack (IPv4 first)
 	topo.net[{-1, -1}] = {QSpec{3000000, 4000, 0}};
 	std::unique_ptr<Run> rp(new Run()); Run& R = *rp;
 	bool inconclusive = false;
@@ -182,11 +196,14 @@ Verdict run_case(Case const& c, Ctx& ctx)
 		DnsEntry good; good.lat_us = 20000; good.addrs = {w.addr(3)}; w.topo.dns["target.test"] = good;
 		DnsEntry refuse; refuse.lat_us = 5000; refuse.addrs = {w.addr(4)}; w.topo.dns["refuse.test"] = refuse;
 		DnsEntry nx; nx.lat_us = 10000; nx.err = 1; w.topo.dns["nx.test"] = nx;
+		DnsEntry good6; good6.lat_us = 15000; good6.addrs = {w.addr(3, 1)}; w.topo.dns["target6.test"] = good6;
 		boost::system::error_code ec;
 		R.server.reset(new sim::socks_server(w.node(2), 1080, version, 0));
 		R.server->bind_start_port(2048);
 		R.tgt.acc.reset(new tcp::acceptor(w.node(3))); R.tgt.acc->open(tcp::v4(), ec); R.tgt.acc->bind(tcp::endpoint(w.addr(3), 9000), ec); R.tgt.acc->listen(10, ec);
 		target_accept(R);
+		R.tgt.acc6.reset(new tcp::acceptor(w.node(3))); R.tgt.acc6->open(tcp::v6(), ec); R.tgt.acc6->bind(tcp::endpoint(w.addr(3, 1), 9000), ec); R.tgt.acc6->listen(10, ec);
+		target_accept6(R);
 		R.tgt.us.reset(new udp::socket(w.node(3))); R.tgt.us->open(udp::v4(), ec); R.tgt.us->bind(udp::endpoint(w.addr(3), 9100), ec); R.tgt.us->non_blocking(true);
 		target_udp(R);
 		tcp::endpoint const T(w.addr(3), 9000), REF(w.addr(4), 9000);
@@ -223,10 +240,12 @@ Verdict run_case(Case const& c, Ctx& ctx)
 			}
 			case 1:
 			{
-				std::string name = sa_ % 3 == 0 ? "target.test" : sa_ % 3 == 1 ? "nx.test" : "refuse.test";
+				bool const v6name = sa_ == 7;
+				std::string name = v6name ? "target6.test" : sa_ % 3 == 0 ? "target.test" : sa_ % 3 == 1 ? "nx.test" : "refuse.test";
 				neg = v5hs + std::string("\x05\x01\x00\x03", 4) + char(name.size()) + name + be16(9000);
 				expectA = std::string("\x05\x00", 2);
-				if (sa_ % 3 == 0) { expectA += std::string("\x05\x00\x00\x01", 4) + ip4(T.address()) + be16(9000); expect_relay = true; }
+				if (v6name) { expectA += std::string("\x05\x00\x00\x04", 4) + ip6(w.addr(3, 1)) + be16(9000); expect_relay = true; ctx.label("v5_connect_name_ipv6"); }
+				else if (sa_ % 3 == 0) { expectA += std::string("\x05\x00\x00\x01", 4) + ip4(T.address()) + be16(9000); expect_relay = true; }
 				else if (sa_ % 3 == 1) { expectA += std::string("\x05\x04\x00\x01\x00\x00\x00\x00\x00\x00", 10); expect_close = true; }
 				else { expectA += std::string("\x05\x05\x00\x01\x00\x00\x00\x00\x00\x00", 10); expect_close = true; }
 				valid = true; ++expect_counts[0];
@@ -349,11 +368,11 @@ Verdict run_case(Case const& c, Ctx& ctx)
 		std::vector<std::string> target_got; for (auto& cn : R.tgt.conns) target_got.push_back(cn->got);
 		// teardown: clients, target, then the proxy; the proxy object outlives every run()
 		{ boost::system::error_code e2; if (R.A.s) R.A.s->close(e2); if (R.B.s) R.B.s->close(e2); R.A.closed = R.B.closed = true; if (R.bind_peer) R.bind_peer->close(e2); if (R.audp) R.audp->close(e2);
-			for (auto& cn : R.tgt.conns) { cn->closed = true; cn->s->close(e2); } R.tgt.acc->close(e2); R.tgt.us->close(e2); }
+			for (auto& cn : R.tgt.conns) { cn->closed = true; cn->s->close(e2); } R.tgt.acc->close(e2); R.tgt.acc6->close(e2); R.tgt.us->close(e2); }
 		t1.cancel(); if (R.A.pacer) R.A.pacer->cancel(); if (R.B.pacer) R.B.pacer->cancel();
 		R.server->stop();
 		try { Budget b2(500000); run_budgeted(w.sim(), b2); } catch (std::exception const& e) { R.fail(std::string("an exception escaped run() during teardown: ") + e.what()); }
-		R.A.s.reset(); R.B.s.reset(); R.A.pacer.reset(); R.B.pacer.reset(); R.bind_peer.reset(); R.audp.reset(); R.tgt.conns.clear(); R.tgt.pending.reset(); R.tgt.acc.reset(); R.tgt.us.reset();
+		R.A.s.reset(); R.B.s.reset(); R.A.pacer.reset(); R.B.pacer.reset(); R.bind_peer.reset(); R.audp.reset(); R.tgt.conns.clear(); R.tgt.pending.reset(); R.tgt.pending6.reset(); R.tgt.acc.reset(); R.tgt.acc6.reset(); R.tgt.us.reset();
 		try { Budget b3(200000); run_budgeted(w.sim(), b3); } catch (...) {}
 		R.server.reset();
 
